@@ -315,7 +315,7 @@ def main():
         # Files already processed are skipped. File is considered as already processed when file with appropriate
         # extension is found in all required output directories. If any of the output paths is set to 'None'
         # (i.e. the output is not required) than this directory is omitted.
-        already_processed_files = load_already_processed_files([output_xml_path, output_logit_path, output_render_path])
+        already_processed_files = load_already_processed_files([output_xml_path, output_logit_path, output_render_path, output_alto_path])
         if len(already_processed_files) > 0:
             logger.info(f"Already processed {len(already_processed_files)} file(s).")
 
